@@ -314,6 +314,18 @@ def Grammar.equiv (g h : Grammar) : Bool :=
   sameChars g.opKwChars h.opKwChars && g.kwNot == h.kwNot && g.kwAnd == h.kwAnd &&
   g.kwOr == h.kwOr && g.quants == h.quants && g.kwOf == h.kwOf
 
+/-- Decidable well-formedness of an extracted grammar: exactly what the C02 theorems assume.
+Operators are keywords whose identifier characters cover those of detection names; whitespace and
+parentheses are not word characters of any terminal; the keyword spellings are the Sigma ones. -/
+def Grammar.wf (g : Grammar) : Bool :=
+  g.opKeyword &&
+  g.identChars.all g.opKwChars.contains &&
+  (wsChars ++ ['(', ')']).all (fun c =>
+    !g.identChars.contains c && !g.patChars.contains c && !g.opKwChars.contains c &&
+    !g.quantKwChars.contains c) &&
+  g.kwNot == "not".toList && g.kwAnd == "and".toList && g.kwOr == "or".toList &&
+  g.kwOf == "of".toList && g.quants == ["1".toList, "any".toList, "all".toList]
+
 /-- the grammar as it was before the fix: operators are bare `Literal`s -/
 def literalGrammar : Grammar := { stdGrammar with opKeyword := false }
 
